@@ -1046,11 +1046,13 @@ func (x *aeadWorker) rep(r int) string {
 // ---------------------------------------------------------------- cron
 
 type cronWorker struct {
-	w      wspec
-	parser *cron.Parser
-	buf    bytes.Buffer
-	lg     cron.Logger
-	env    *phaseEnv
+	prefix  string
+	verbose bool
+	w       wspec
+	parser  *cron.Parser
+	buf     bytes.Buffer
+	lg      cron.Logger
+	env     *phaseEnv
 }
 
 func newCronWorker(w wspec, idx int, env *phaseEnv) *cronWorker {
@@ -1069,8 +1071,10 @@ func newCronWorker(w wspec, idx int, env *phaseEnv) *cronWorker {
 	if w.Parser != 0 {
 		c.parser = &p
 	}
-	l := log.New(&c.buf, fmt.Sprintf("w%d: ", idx), 0)
+	c.prefix = fmt.Sprintf("w%d: ", idx)
+	l := log.New(&c.buf, c.prefix, 0)
 	if w.Seed%2 == 0 {
+		c.verbose = true
 		c.lg = cron.VerbosePrintfLogger(l)
 	} else {
 		c.lg = cron.PrintfLogger(l)
@@ -1109,7 +1113,36 @@ func (c *cronWorker) rep(r int) string {
 		}
 		t = n
 	}
-	return "Next:" + sb.String() + " | log=" + c.buf.String()
+	res := "Next:" + sb.String() + " | log=" + c.buf.String()
+	// Log calls of every shape the Logger interface allows - no key/values, a lone value, pairs, pairs plus a lone
+	// value - each compared with the line the documented logfmt-like format gives for THAT call (whatever calls of
+	// other shapes this or any other logger of the process has made before).
+	for k, kv := range [][]interface{}{nil, {"lone"}, {"a", 1}, {"a", 1, "lone"}, {"a", 1, "b", "two"}, nil, {"other"}} {
+		if (k+r+int(c.w.Seed>>3))%2 == 0 {
+			continue
+		}
+		c.buf.Reset()
+		msg := fmt.Sprintf("shape%d", k)
+		c.lg.Info(msg, kv...)
+		want := ""
+		if c.verbose {
+			f := "%s"
+			if len(kv) > 0 {
+				f += ", "
+			}
+			for i := 0; i < len(kv)/2; i++ {
+				if i > 0 {
+					f += ", "
+				}
+				f += "%v=%v"
+			}
+			want = c.prefix + fmt.Sprintf(f, append([]interface{}{msg}, kv...)...) + "\n"
+		}
+		if got := c.buf.String(); got != want {
+			res += fmt.Sprintf(" BROKEN: Info(%q, %v) through this worker's own logger wrote %q, the format documented for a call with %d key/value arguments gives %q", msg, kv, got, len(kv), want)
+		}
+	}
+	return res
 }
 
 // ---------------------------------------------------------------- logger
